@@ -71,7 +71,8 @@ func wfFilter(r *Rng) *mocrelay.ReqFilter {
 	if r.P(45) {
 		f.Tags = map[string][]string{}
 		for i := r.Range(1, 3); i > 0; i-- {
-			switch n := pick(r, []string{"e", "p", "a", "t", "d", "E", "Z"}); n {
+			// every letter class boundary of the tag-name test: A, Z, a, z are names; @ [ ` { are not (f-key mutation)
+			switch n := pick(r, []string{"e", "p", "a", "t", "d", "E", "Z", "A", "z", "e", "p", "a", "t"}); n {
 			case "e", "p":
 				f.Tags[n] = strs(func() string { return hexN(r, 64) })
 			case "a":
@@ -309,7 +310,7 @@ var mutations = []mutation{
 		if len(fs) == 0 {
 			return false
 		}
-		pick(r, fs)[pick(r, []string{"#ab", "#", "#1", "#é", "foo", "IDS", "search", "#-", "", "i", "##", "\x00", "#\x00", "limit "})] = pick(r, []any{[]any{"x"}, []any{}, nil, json.Number("0")})
+		pick(r, fs)[pick(r, []string{"#ab", "#", "#1", "#é", "foo", "IDS", "search", "#-", "", "i", "##", "\x00", "#\x00", "limit ", "#@", "#[", "#`", "#{", "#0", "#9"})] = pick(r, []any{[]any{"x"}, []any{}, nil, json.Number("0")})
 		return true
 	}},
 	{"f-type", func(r *Rng, root []any) bool {
@@ -443,7 +444,11 @@ func execParse(text []byte, wf bool, mut string) {
 	} else {
 		o["res"] = "ok"
 		o["msg"] = cmsgJ(msg)
-		o["valid"] = mocrelay.ValidClientMsg(msg)
+		var valid bool
+		if p := recoverStr(func() { valid = mocrelay.ValidClientMsg(msg) }); p != "" {
+			o["valid_panic"] = p
+		}
+		o["valid"] = valid
 		if e := eventOfMsg(msg); e != nil && e.Tags == nil {
 			o["res"] = "error" // cannot happen: decoded events always carry a tag slice
 		}
